@@ -76,7 +76,8 @@ def bootstrap(suite: str = "mini", suite_dir: str | None = None) -> str:
     os.environ[GUARD] = "1"
     os.environ.setdefault("PYTHONHASHSEED", "0")
     wd = workdir()
-    home = os.path.join(wd, "home")
+    # one HOME per suite: the overwrite cfg files generated there include the suite's own configs and parsed recipes keep their absolute names
+    home = os.path.join(wd, "home-" + (suite if suite != "custom" else stable_hash(suite_dir)))
     os.makedirs(home, exist_ok=True)
     os.environ["HOME"] = home
     if REPO not in sys.path[:1]:
@@ -92,16 +93,14 @@ def bootstrap(suite: str = "mini", suite_dir: str | None = None) -> str:
     if not os.path.abspath(avocado_i2n.__file__).startswith(os.path.abspath(REPO) + os.sep):
         raise HarnessError(f"avocado_i2n imported from {avocado_i2n.__file__}, expected under {REPO}")
     if suite == "mini":
-        path = build_minisuite(os.path.join(wd, "suite"))
+        path = os.path.join(wd, "suite")
+        if not os.path.isdir(os.path.join(path, "configs")):
+            build_minisuite(path)
     elif suite == "shipped":
         path = os.path.join(REPO, "tp_folder")
     else:
         path = suite_dir
     settings.update_option("i2n.common.suite_path", path)
-    # overwrite files depend on the suite: regenerate
-    for f in os.listdir(home):
-        if f.startswith("avocado_overwrite_"):
-            os.unlink(os.path.join(home, f))
     _bootstrapped = (suite, path)
     return path
 
